@@ -273,10 +273,17 @@ def join_inner_fates(prog, body):
                     trow = body.types[body.locals[st["d"]]]
                     if trow["k"] == "adt" and trow.get("def") == "core::result::Result" and len(trow.get("a", [])) == 2 and is_storage_err(body.types[trow["a"][1]]):
                         inner_locals.add(st["d"])
-        if not inner_locals:
+        # `match join() { Ok(Ok(..)) => .., Ok(Err(e)) => .. }` reads the inner discriminant in place
+        in_place = False
+        for bi in body.normal_blocks():
+            for st in body.stmts(bi):
+                if st.get("r") == "discr" and not is_bare(st["p"]) and place_local(st["p"]) in locs \
+                        and any(e.startswith("d:") and e.split(":", 2)[2] in ("Ok", "Continue") for e in place_proj(st["p"])):
+                    in_place = True
+        if not inner_locals and not in_place:
             out.append((b, {"discarded"}))
             continue
-        fates = set()
+        fates = {"checked"} if in_place else set()
         for l in inner_locals:
             fates |= fate_of_local(body, l)
         out.append((b, fates))
